@@ -32,6 +32,7 @@ import (
 	"strings"
 	"sync/atomic"
 	"testing"
+	"time"
 
 	remoteexecution "github.com/bazelbuild/remote-apis/build/bazel/remote/execution/v2"
 	"github.com/buildbarn/bb-remote-execution/pkg/builder"
@@ -378,6 +379,16 @@ func (h *harness) runDirect(cs *caseSpec, be backend, df digest.Function, faultA
 
 	plan := outkit.NewPlan(faultAt, outkit.FaultErrDiscard, nil)
 	cas := outkit.NewStore("cas", plan, true)
+	// Lingering writers (virtual back end, clean runs): the direct driver
+	// owns the writable file upload delay channel, so "the delay expired"
+	// is closing it.
+	writableFileUploadDelay := make(chan struct{})
+	var sr *stragglerRun
+	if cs.Stragglers != nil && faultAt == 0 && be.name() == "virtual" {
+		sr = newStragglerRun(cs, func() { close(writableFileUploadDelay) })
+		plan.OnOp = sr.onOp
+		extra["stragglers"] = cs.Stragglers.describe()
+	}
 	root, ops, cleanup := be.open(h, cas, plan)
 	defer cleanup()
 	defer func() {
@@ -410,21 +421,52 @@ func (h *harness) runDirect(cs *caseSpec, be backend, df digest.Function, faultA
 			panic(fmt.Sprintf("harness: remove %v: %v", loc, err))
 		}
 	}
-	if err := ops.materialize(cs.Final); err != nil {
+	atReturn := cs.Final
+	if sr != nil {
+		atReturn = sr.atReturn
+		if err := sr.materialize(ops.(virtualOps).v.Root, "./"); err != nil {
+			panic(fmt.Sprintf("harness: materialise produced hierarchy: %v", err))
+		}
+	} else if err := ops.materialize(cs.Final); err != nil {
 		panic(fmt.Sprintf("harness: materialise produced hierarchy: %v", err))
 	}
 	if sanity, err := ops.snapshot(); err != nil {
 		panic(err)
 	} else {
 		var diffs []string
-		outkit.Diff(cs.Final, sanity, "", &diffs)
+		outkit.Diff(atReturn, sanity, "", &diffs)
 		if len(diffs) > 0 {
 			panic(fmt.Sprintf("harness: materialised hierarchy differs from the model: %v", diffs))
 		}
 	}
 
 	var ar remoteexecution.ActionResult
-	uerr := oh.UploadOutputs(context.Background(), root, cas, df, make(chan struct{}), &ar, cs.ForceTrees)
+	uerr := oh.UploadOutputs(context.Background(), root, cas, df, writableFileUploadDelay, &ar, cs.ForceTrees)
+	if sr != nil {
+		sr.settle(cs, driver, counters)
+		// What the writers left behind is what the model says (or, for
+		// writers that never got to finish, what was there all along).
+		left := cs.Final
+		if cs.Stragglers.NeverCloses {
+			left = sr.atReturn
+		}
+		sanity, err := ops.snapshot()
+		if err != nil {
+			panic(err)
+		}
+		var diffs []string
+		outkit.Diff(left, sanity, "", &diffs)
+		if len(diffs) > 0 {
+			panic(fmt.Sprintf("harness: hierarchy after the lingering writers closed differs from the model: %v", diffs))
+		}
+		if cs.Stragglers.NeverCloses {
+			// The delay expired: the files are judged as they were
+			// at upload time.
+			judged := *cs
+			judged.Final = sr.atReturn
+			cs = &judged
+		}
+	}
 	exp := cs.expected(df.GetEnumValue())
 	trig, _ := plan.Triggered()
 	if uerr != nil {
@@ -440,6 +482,11 @@ func (h *harness) runDirect(cs *caseSpec, be backend, df digest.Function, faultA
 			counters["special-file-errors-observed"]++
 		case cs.ParentReplaced == "file":
 			counters["parent-replaced-errors-observed"]++
+		case sr != nil && sr.expired.Load():
+			// A writer outlived the delay: an error is acceptable.
+			counters["straggler-delay-expired-errors-observed"]++
+			checkListed(cs, df, &ar, cas, &f)
+			return
 		default:
 			f.add("upload-outputs unexpected-error", "UploadOutputs failed although every declared location holds a file, directory, symlink or nothing: %v", uerr)
 		}
@@ -585,6 +632,17 @@ func (h *harness) runExecutor(cs *caseSpec, useVirtual bool, faultAt int, malfor
 		extra["request_defect"] = malform
 	}
 
+	clk := vclock.New(1_700_000_000)
+	// Lingering writers (virtual build directory, clean runs). The local
+	// executor takes maximumWritableFileUploadDelay (one minute) from clk,
+	// which only moves when the harness says so: the delay never expires
+	// unless a writer that never closes makes the harness advance clk.
+	var sr *stragglerRun
+	if cs.Stragglers != nil && useVirtual && faultAt == 0 && malform == "" {
+		sr = newStragglerRun(cs, func() { clk.Advance(2*time.Minute, nil) })
+		plan.OnOp = sr.onOp
+		extra["stragglers"] = cs.Stragglers.describe()
+	}
 	var seenWD string
 	runner := &outkit.Runner{OnRun: func(ctx context.Context, req *runner_pb.RunRequest) (*runner_pb.RunResponse, error) {
 		seenWD = req.WorkingDirectory
@@ -603,7 +661,11 @@ func (h *harness) runExecutor(cs *caseSpec, useVirtual bool, faultAt int, malfor
 					panic(fmt.Sprintf("harness: remove %v: %v", loc, err))
 				}
 			}
-			if err := outkit.MaterializeVirtual(root, cs.Final); err != nil {
+			if sr != nil {
+				if err := sr.materialize(root, "./"+strings.TrimPrefix(req.InputRootDirectory, "./")+"/"); err != nil {
+					panic(fmt.Sprintf("harness: materialise produced hierarchy: %v", err))
+				}
+			} else if err := outkit.MaterializeVirtual(root, cs.Final); err != nil {
 				panic(fmt.Sprintf("harness: materialise produced hierarchy: %v", err))
 			}
 			// stdout and stderr live next to the input root.
@@ -649,7 +711,7 @@ func (h *harness) runExecutor(cs *caseSpec, useVirtual bool, faultAt int, malfor
 	var err error
 	stack, err = outkit.NewStack(outkit.StackConfig{
 		BuildRoot: buildRoot, Plan: plan, CAS: cas, AC: ac, BatchSize: 100, PutConcurrency: 2,
-		Runner: runner, Clock: vclock.New(1_700_000_000), Fetcher: fetcher, ForceTrees: cs.ForceTrees, WorkerName: "c10",
+		Runner: runner, Clock: clk, Fetcher: fetcher, ForceTrees: cs.ForceTrees, WorkerName: "c10",
 		Virtual: useVirtual, DirectoryFaults: true,
 	})
 	if err != nil {
@@ -662,6 +724,16 @@ func (h *harness) runExecutor(cs *caseSpec, useVirtual bool, faultAt int, malfor
 	}, updates)
 	st := status.FromProto(resp.Status)
 	extra["response_status"] = st.Code().String() + ": " + st.Message()
+	if sr != nil {
+		sr.settle(cs, driver, counters)
+		if cs.Stragglers.NeverCloses {
+			// The delay expired: the files are judged as they were
+			// at upload time.
+			judged := *cs
+			judged.Final = sr.atReturn
+			cs = &judged
+		}
+	}
 
 	if malform != "" && malform != "runner-error" {
 		// The request itself is unusable: nothing may run or be reported.
@@ -734,6 +806,11 @@ func (h *harness) runExecutor(cs *caseSpec, useVirtual bool, faultAt int, malfor
 			counters["special-file-errors-observed"]++
 		case cs.ParentReplaced == "file":
 			counters["parent-replaced-errors-observed"]++
+		case sr != nil && sr.expired.Load():
+			// A writer outlived the delay: an error is acceptable.
+			counters["straggler-delay-expired-errors-observed"]++
+			checkListed(cs, df, resp.Result, cas, &f)
+			return
 		default:
 			f.add("upload-outputs unexpected-error", "response %s: %s although every declared location holds a file, directory, symlink or nothing", st.Code(), st.Message())
 		}
@@ -753,6 +830,15 @@ func (h *harness) runExecutor(cs *caseSpec, useVirtual bool, faultAt int, malfor
 
 // --- entry point ------------------------------------------------------------------
 
+// One in stragglerOneInDirect direct/virtual cases and one in
+// stragglerOneInExecutor executor/virtual cases (the latter are three times
+// rarer) are candidates for lingering writers; those without a suitable
+// output file stay as they are.
+const (
+	stragglerOneInDirect   = 4
+	stragglerOneInExecutor = 2
+)
+
 func TestCheck(t *testing.T) {
 	r := ev.Start("C10")
 	defer r.Finish()
@@ -761,6 +847,7 @@ func TestCheck(t *testing.T) {
 	r.Assume("a special file at a declared location may or may not fail the upload, but must not be listed; special files inside an output directory are omitted from its Tree")
 	r.Assume("output_files/output_directories of the Command are ignored when output_paths is used (only output_paths is implemented by this snapshot's NewOutputHierarchy)")
 	r.Assume("the action never replaces a parent directory of a declared output by a symlink (hostile in-root redirection is not generated); it may delete such a parent or put a regular file in its place, which may (file) or may not fail the upload")
+	r.Assume("lingering writers (virtual build directory, clean runs, a generated minority): the fake runner creates one or two output files (a declared file, a file inside a declared directory) through VirtualOpenChild with write access, writes a first version and returns with the descriptor open; a harness goroutine turns it into the model's contents (append, overwrite, both, truncate) and closes it once the upload of that file was seen returning, or 100 ms of real time after the upload reached the file, or when the worker code is done. The result must describe the contents after the close (the model); the real-time delay only affects reach, not the verdict, since the writable file upload delay cannot expire by itself (virtual clock / harness-owned channel). Writers that never close: the harness makes the delay expire when the upload reaches the file; then an error, or exactly the contents at upload time, are accepted")
 	r.Assume("fault enumeration: for a fixed subset of cases each operation of the clean run (build directory calls, file open/read, CAS FindMissing/Put) fails once with a non-ENOENT error; oracle: no error reported => parents exact and result exact; error reported => only declared paths listed and listed Trees structurally well formed")
 	for _, s := range []string{
 		"same-string-declared-twice", "aliasing-strings-for-one-location", "nested-declared-outputs",
@@ -778,6 +865,9 @@ func TestCheck(t *testing.T) {
 		"fault:file-OpenRead", "fault:file-ReadAt", "fault:file-Len", "fault:cas-Put", "fault:cas-FindMissing",
 		"fault-before-the-command-ran", "fault-after-the-command-ran",
 		"malformed-request-refused", "runner-failed-after-producing-outputs",
+		"straggler:output-file-open-for-writing-at-upload", "straggler:file-inside-output-directory",
+		"straggler:writer-closed-within-delay", "straggler:delay-expired-writer-still-open",
+		"straggler:driver-direct/virtual", "straggler:driver-executor/virtual",
 	} {
 		if r.ReplayFile() == "" {
 			r.Floor(s, 10)
@@ -826,7 +916,14 @@ func TestCheck(t *testing.T) {
 			driver = "executor/virtual"
 		}
 		cs := genCase(rng, i, true)
-		r.Case("case %d driver=%s wd=%q outputs=%q format=%s", i, driver, cs.WorkingDirectory, cs.OutputPaths, cs.Format)
+		// A minority of the virtual cases has output files whose writer is
+		// still around when the runner returns. Drawn from a PRNG stream
+		// of its own, so that the commands and hierarchies are the ones
+		// generated without this.
+		if srng := r.Rand(37, uint64(i)); (driver == "direct/virtual" && srng.IntN(stragglerOneInDirect) == 0) || (driver == "executor/virtual" && srng.IntN(stragglerOneInExecutor) == 0) {
+			cs.Stragglers = genStragglers(srng, cs)
+		}
+		r.Case("case %d driver=%s wd=%q outputs=%q format=%s stragglers=%s", i, driver, cs.WorkingDirectory, cs.OutputPaths, cs.Format, cs.Stragglers.describe())
 		df := digestFunctions[i%len(digestFunctions)]
 		run := func(faultAt int) runInfo {
 			switch driver {
@@ -925,7 +1022,7 @@ func TestCheck(t *testing.T) {
 		for _, s := range names {
 			r.Situation(s)
 		}
-		r.Hash(ev.HashOf(driver, cs.WorkingDirectory, cs.OutputPaths, cs.Format, cs.ForceTrees, cs.Final.Describe()), len(names) > 0)
+		r.Hash(ev.HashOf(driver, cs.WorkingDirectory, cs.OutputPaths, cs.Format, cs.ForceTrees, cs.Final.Describe(), cs.Stragglers.describe()), len(names) > 0)
 		if i < 3 {
 			r.Sample(map[string]any{"driver": driver, "case": cs.describe(), "situations": names})
 		}
